@@ -549,10 +549,17 @@ impl MorselAggregateExec {
             source.total_work(),
             rayon::current_num_threads(),
         );
+        // Set when a SUM / AVG input turns out to carry NULLs: the dense arrays
+        // cannot tell "sum of nothing" (NULL) from 0, so the attempt is
+        // abandoned and the generic morsel path answers instead.
+        let abandon = std::sync::atomic::AtomicBool::new(false);
         let results: Vec<Result<()>> = (0..num_threads)
             .into_par_iter()
             .map(|_| {
                 while let Some(work) = source.get_work() {
+                    if abandon.load(Ordering::Relaxed) {
+                        return Ok(());
+                    }
                     let batches = source.read_row_group(&work)?;
                     for batch in batches {
                         let key_arr = batch.column(key_pos);
@@ -622,11 +629,11 @@ impl MorselAggregateExec {
                                             )
                                         })?;
                                     let vals = arr.values();
-                                    let has_nulls = arr.null_count() > 0;
+                                    if arr.null_count() > 0 {
+                                        abandon.store(true, Ordering::Relaxed);
+                                        return Ok(());
+                                    }
                                     for (r, &k) in keys_i64.iter().enumerate() {
-                                        if has_nulls && arr.is_null(r) {
-                                            continue;
-                                        }
                                         acc_i64[ai][(k - kmin) as usize]
                                             .fetch_add(vals[r], Ordering::Relaxed);
                                     }
@@ -642,11 +649,11 @@ impl MorselAggregateExec {
                                             )
                                         })?;
                                     let vals = arr.values();
-                                    let has_nulls = arr.null_count() > 0;
+                                    if arr.null_count() > 0 {
+                                        abandon.store(true, Ordering::Relaxed);
+                                        return Ok(());
+                                    }
                                     for (r, &k) in keys_i64.iter().enumerate() {
-                                        if has_nulls && arr.is_null(r) {
-                                            continue;
-                                        }
                                         let cell = &acc_f64[ai][(k - kmin) as usize];
                                         let mut cur = cell.load(Ordering::Relaxed);
                                         loop {
@@ -681,6 +688,9 @@ impl MorselAggregateExec {
             .collect();
         for r in results {
             r?;
+        }
+        if abandon.load(Ordering::Relaxed) {
+            return Ok(None);
         }
         if timing {
             eprintln!(
